@@ -131,7 +131,15 @@ def promote_leaves(a: SLeaf, b: SLeaf):
         return z3.If(k == 0, D.promote_weak('int', ds), z3.If(k == 1, D.promote_weak('float', ds),
                      z3.If(k == 2, D.promote_weak('complex', ds), strong)))
     dc = z3.If(z3.And(wa, z3.Not(wb)), weak_vs(da, db), z3.If(z3.And(wb, z3.Not(wa)), weak_vs(db, da), strong))
-    return z3.simplify(dc), z3.And(wa, wb)
+
+    def stays_weak(dw, ds):
+        # JAX's lattice: a weak scalar of a HIGHER kind than a strongly typed bool / integer operand gives a weak result
+        # (i32 v f* = f*, bool v i* = i*, i32 v c* = c*); against a float / complex operand the result is strong
+        kw = weak_kind_table(dw)
+        ks = z3.If(ds == D.BOOL, -1, z3.If(z3.Or(ds == D.I32, ds == D.I64), 0, 1))
+        return z3.And(ks <= 0, ks < kw, kw <= 2)
+    weak = z3.Or(z3.And(wa, wb), z3.And(wa, z3.Not(wb), stays_weak(da, db)), z3.And(wb, z3.Not(wa), stays_weak(db, da)))
+    return z3.simplify(dc), z3.simplify(weak)
 
 
 def broadcast(interp, s1: SSeq, s2: SSeq):
